@@ -76,12 +76,21 @@ func r03a(c *an.Ctx) {
 		return
 	}
 	c.Subject()
-	states := constsLeadingTo(fn, upd, "lib.TaskState")
+	var stateV ssa.Value
+	an.Instrs(fn, func(in ssa.Instruction) {
+		if call, ok := in.(*ssa.Call); ok && an.MethodName(&call.Call) == "GetState" && strings.HasSuffix(call.Type().String(), "lib.TaskState") && stateV == nil {
+			stateV = call
+		}
+	})
 	var missing []string
 	for _, n := range []string{"TASK_FAILED", "TASK_LOST", "TASK_KILLED"} {
-		if v := lookupConstInt(c, "github.com/mesos/mesos-go/api/v1/lib", n); v == nil || !states[*v] {
+		v := lookupConstInt(c, "github.com/mesos/mesos-go/api/v1/lib", n)
+		if v == nil || stateV == nil || !an.ReachableAssuming(fn, stateV, constant.MakeInt64(*v), upd) {
 			missing = append(missing, n)
 		}
+	}
+	if v := lookupConstInt(c, "github.com/mesos/mesos-go/api/v1/lib", "TASK_RUNNING"); v != nil && stateV != nil && an.ReachableAssuming(fn, stateV, constant.MakeInt64(*v), upd) {
+		missing = append(missing, "(also reached for TASK_RUNNING)")
 	}
 	sort.Strings(missing)
 	key := "(*core/task.Manager).handleMessage|terminal-status->ERROR"
@@ -189,7 +198,7 @@ func r03b(c *an.Ctx) {
 }
 
 func r03c(c *an.Ctx) {
-	c.Rule("R03c", "leaf roles: parent.updateState iff Critical, parent.updateStatus always; aggregate skips exactly non-critical leaves", 5)
+	c.Rule("R03c", "leaf roles: parent.updateState iff Critical, parent.updateStatus always; aggregators forward always; aggregate skips exactly non-critical leaves", 7)
 	type leaf struct{ typ, role string }
 	res := map[string][2]bool{}
 	for _, l := range []leaf{{"taskRole", "task"}, {"callRole", "call"}} {
@@ -235,6 +244,41 @@ func r03c(c *an.Ctx) {
 		})
 		c.Ob("(*core/workflow."+l.typ+").updateStatus|forward-always", su.Pos(), always, "a %s role must forward every status change to its parent, critical or not", l.role)
 		res[l.typ] = [2]bool{gated && n == 1, always}
+	}
+	// aggregators: every update is forwarded to the parent whenever there is one (the fan-out at the root is a
+	// non-blocking send that may be dropped; later updates re-offer the state, so forwarding must not depend on
+	// whether the aggregator's own value changed)
+	for _, m := range []string{"updateState", "updateStatus"} {
+		fn := c.MustFn("core/workflow", "aggregatorRole."+m)
+		if fn == nil {
+			continue
+		}
+		c.Subject()
+		n, ok := 0, false
+		var extra []string
+		an.Instrs(fn, func(in ssa.Instruction) {
+			ci, isCI := in.(ssa.CallInstruction)
+			if !isCI || !ci.Common().IsInvoke() || an.MethodName(ci.Common()) != m {
+				return
+			}
+			n++
+			ok = true
+			for _, a := range an.Atoms(in.Block()) {
+				// allowed guards: receiver != nil, parent != nil
+				if a.Op == token.NEQ && a.Y != nil && an.IsNilConst(a.Y) {
+					if _, isP := a.X.(*ssa.Parameter); isP {
+						continue
+					}
+					if isFieldNamed(a.X, "parent") {
+						continue
+					}
+				}
+				ok = false
+				extra = append(extra, c.PosStr(atomPos(a)))
+			}
+		})
+		c.Ob("(*core/workflow.aggregatorRole)."+m+"|forward-always", fn.Pos(), ok && n == 1,
+			"an aggregator must forward every %s to its parent whenever it has one, independently of whether its own aggregate changed (forwarding sites: %d, extra conditions at %v)", strings.TrimPrefix(m, "update"), n, extra)
 	}
 	if a, ok1 := res["taskRole"]; ok1 {
 		if b, ok2 := res["callRole"]; ok2 {
